@@ -143,9 +143,15 @@ class World:
                 self.loop.settle()
             for k in range((params or {}).get("rx_prior", 0)):
                 self.feed(("DATA", self.ref.expected, 0, 0))
-            self.tx_task = self.loop.create_task(self.proto.send_data(b"\x31\x32\x33\x34"))
-            self.tx_task.add_done_callback(lambda t: t.cancelled() or t.exception())
-            self.loop.settle()
+            if self.ctx == "reset-sent":
+                # the host has asked for a reset (RST written) and is waiting for the RSTACK: frames that arrive meanwhile are judged as ever
+                self.proto.send_reset()
+                self.loop.settle()
+                self.tx_task = None
+            else:
+                self.tx_task = self.loop.create_task(self.proto.send_data(b"\x31\x32\x33\x34"))
+                self.tx_task.add_done_callback(lambda t: t.cancelled() or t.exception())
+                self.loop.settle()
             if self.ctx == "exhausted":
                 for _ in range(12):
                     if self.tx_task.done():
@@ -159,7 +165,15 @@ class World:
         return [(e, 0) for e in self.EVENTS]
 
     def feed(self, ev):
-        data = encode(ev, self.n)
+        if ev and isinstance(ev[0], tuple):
+            # several frames in ONE read (the transmit side cannot run in between)
+            data = b""
+            for e in ev:
+                data += encode(e, self.n)
+                self.n += 1
+            self.n -= 1
+        else:
+            data = encode(ev, self.n)
         self.n += 1
         n_up, n_w = len(self.rec.events), len(self.tr.writes)
         self.viol = []
@@ -199,19 +213,27 @@ def tx_context_job(args):
     out = []
     n = 0
     singles = [[ev] for ev in World.EVENTS]
-    for seq in singles + [list(p) for p in itertools.product(REDUCED, repeat=2)]:
+    pairs = [list(p) for p in itertools.product(REDUCED, repeat=2)]
+    for seq in singles + pairs + [("one-read", p) for p in pairs]:
         w = World({"ctx": ctx, "tx_prior": tx_prior, "rx_prior": rx_prior})
         hist = []
         try:
             if w.viol:
                 out.append((f"C04|{ctx}|setup", f"while setting up the context ({ctx}): {w.viol[0]}", {"world": "c04", "ctx": ctx, "tx_prior": tx_prior, "rx_prior": rx_prior, "events": []}))
                 break
+            if seq and seq[0] == "one-read":
+                # both frames of the pair arrive in one read; the second is relative to the state the first one leaves
+                e1 = reduced_event(seq[1][0], w.ref.expected)
+                exp2 = (w.ref.expected + 1) % 8 if (e1[0] == "DATA" and e1[1] == w.ref.expected) else (0 if e1[0] == "RSTACK" else w.ref.expected)
+                seq = [(e1, reduced_event(seq[1][1], exp2))]
             for item in seq:
                 ev = reduced_event(item, w.ref.expected) if isinstance(item, str) else item
                 w.feed(ev)
-                hist.append(list(ev))
+                hist.append([list(x) for x in ev] if isinstance(ev[0], tuple) else list(ev))
                 if w.viol:
-                    what = "a host DATA frame outstanding" if ctx == "inflight" else "the host's retry budget used up (link failed)"
+                    what = {"inflight": "a host DATA frame outstanding", "exhausted": "the host's retry budget used up (link failed)",
+                            "reset-sent": "a reset request written and its RSTACK outstanding"}[ctx]
+                    ev = ev[-1] if isinstance(ev[0], tuple) else ev
                     out.append((f"C04|{ctx}|{ev[0]}|{w.viol[0].split(':', 1)[-1].strip()[:50]}", f"with {what} (host frame number {tx_prior % 8}): {w.viol[0]}",
                                 {"world": "c04", "ctx": ctx, "tx_prior": tx_prior, "rx_prior": rx_prior, "events": list(hist)}))
                     break
@@ -269,9 +291,9 @@ def main(tier: str) -> int:
         twin_runs += 1
 
     ctx_runs = 0
-    jobs = [(ctx, txp, rxp) for ctx in ("inflight", "exhausted") for txp, rxp in ((0, 0), (5, 3), (2, 7), (7, 1))]
+    jobs = [(ctx, txp, rxp) for ctx in ("inflight", "exhausted", "reset-sent") for txp, rxp in ((0, 0), (5, 3), (2, 7), (7, 1))]
     if tier != "quick":
-        jobs = [(ctx, txp, rxp) for ctx in ("inflight", "exhausted") for txp in range(8) for rxp in range(8)]
+        jobs = [(ctx, txp, rxp) for ctx in ("inflight", "exhausted", "reset-sent") for txp in range(8) for rxp in range(8)]
     for cnt, errs in explore.pool().imap_unordered(tx_context_job, jobs):
         ctx_runs += cnt
         for key, msg, rp in errs:
